@@ -25,7 +25,7 @@ def run_demo(d, tree):
         return 124, 'timeout'
 
 
-def verify(ids, tier='quick', tests=True, runs=None, props=None):
+def verify(ids, tier='quick', tests=True, runs=None, props=None, seeds=None):
     ids = ids or sorted(os.listdir(SEED))
     summary = {}
     for sid in ids:
@@ -47,8 +47,12 @@ def verify(ids, tier='quick', tests=True, runs=None, props=None):
             if tests:
                 r = subprocess.run([PY, os.path.join(HERE, 'tools', 'baseline.py'), tree], capture_output=True, text=True)
                 res['baseline'] = 'pass' if r.returncode == 0 else 'FAIL ' + r.stdout[-200:]
-            for pid in (props or [meta['property']]):
+            for pid, vseed in [(p_, s_) for p_ in (props or meta.get(
+                    'caught_by') or [meta['property']])
+                    for s_ in (seeds or [None])]:
                 env = dict(os.environ, VERIF_REPO=tree)
+                if vseed is not None:
+                    env['VERIF_SEED'] = str(vseed)
                 cmd = [PY, '-B', os.path.join(HERE, 'dsim', 'cli.py'), 'check', pid, '--tier', tier, '--no-evidence']
                 if runs:
                     cmd += ['--runs', str(runs)]
@@ -58,9 +62,11 @@ def verify(ids, tier='quick', tests=True, runs=None, props=None):
                 for line in r.stdout.splitlines():
                     if line.strip().startswith('tag='):
                         tag = line.strip().split()[0]; break
-                res[f'check_{pid}_{tier}'] = f'rc={r.returncode} {tag} {time.time()-t0:.0f}s'
+                key = f'check_{pid}_{tier}' + (
+                    f'_seed{vseed}' if vseed is not None else '')
+                res[key] = f'rc={r.returncode} {tag} {time.time()-t0:.0f}s'
                 if r.returncode == 2:
-                    res[f'check_{pid}_{tier}'] += ' ' + r.stdout[-400:]
+                    res[key] += ' ' + r.stdout[-400:]
         finally:
             shutil.rmtree(tree, ignore_errors=True)
         meta.setdefault('verified', {}).update(res)
@@ -87,6 +93,9 @@ if __name__ == '__main__':
             i = args.index('--runs'); runs = int(args[i + 1]); del args[i:i + 2]
         if '--props' in args:
             i = args.index('--props'); props = args[i + 1].split(','); del args[i:i + 2]
+        seeds = None
+        if '--seeds' in args:
+            i = args.index('--seeds'); seeds = [int(x) for x in args[i + 1].split(',')]; del args[i:i + 2]
         if '--no-tests' in args:
             args.remove('--no-tests'); tests = False
-        verify(args, tier, tests, runs, props)
+        verify(args, tier, tests, runs, props, seeds)
